@@ -15,7 +15,10 @@ type c19Delegate struct {
 	endAt     []int64
 	nextID    int
 	maxCalls  int
+	errItems  bool
 }
+
+var errC19Item = errors.New("bad target entry")
 
 var errC19 = errors.New("pass cannot start")
 
@@ -40,8 +43,12 @@ func (d *c19Delegate) GenerateRequests(ctx context.Context, r *Range) (<-chan *R
 			if d.sendDelay > 0 {
 				time.Sleep(d.sendDelay)
 			}
+			rq := &Request{DstPort: uint16(d.nextID)}
+			if d.errItems && ndBool("errorRequest") {
+				rq.Err = errC19Item // a bad entry of the target list: forwarded like any other item of the pass
+			}
 			select {
-			case out <- &Request{DstPort: uint16(d.nextID)}:
+			case out <- rq:
 				d.nextID++
 			case <-ctx.Done():
 				close(out)
@@ -59,7 +66,7 @@ func (d *c19Delegate) GenerateRequests(ctx context.Context, r *Range) (<-chan *R
 func VerifH_C19_live() {
 	const I = 100 * time.Millisecond
 	verifNow()
-	d := &c19Delegate{maxCalls: 12}
+	d := &c19Delegate{maxCalls: 12, errItems: verifParam("ERRITEMS", 0) == 1}
 	for p := 0; p < 3; p++ {
 		k := ndU8("passLen")
 		verifAssume(k <= 2)
